@@ -134,7 +134,9 @@ def build(spec):
     if k == "reduce":
         from sktime.forecasting.compose import make_reduction
         return make_reduction(build_regressor(spec.get("regressor", "stub")),
-                              strategy=spec["strategy"], window_length=spec["window_length"])
+                              strategy=spec["strategy"], window_length=spec["window_length"],
+                              scitype="tabular-regressor" if spec.get("regressor") == "inplace"
+                              else "infer")
     if k == "ensemble":
         from sktime.forecasting.compose import EnsembleForecaster
         return EnsembleForecaster(
@@ -171,6 +173,12 @@ def build_regressor(name):
     if name == "linear":
         from sklearn.linear_model import LinearRegression
         return LinearRegression()
+    if name == "inplace":
+        # a legitimate regressor that works in place on what it is given at predict time
+        from sklearn.linear_model import LinearRegression
+        from sklearn.pipeline import make_pipeline
+        from sklearn.preprocessing import StandardScaler
+        return make_pipeline(StandardScaler(copy=False), LinearRegression())
     raise ValueError(name)
 
 
@@ -371,7 +379,7 @@ def gen_leaf(rng, allow_slow=True, allow_reduce=True):
         strat = rng.choice(["recursive", "recursive", "direct", "multioutput", "dirrec"])
         reg = "stub"
         if strat == "multioutput" and rng.random() < 0.5:
-            reg = "linear"
+            reg = rng.choice(["linear", "inplace"])
         return {"kind": "reduce", "strategy": strat, "window_length": rng.choice([2, 3, 4, 5]),
                 "regressor": reg}
     if not allow_slow:
